@@ -20,6 +20,8 @@ def render(trace, log_size=0, hidden=(), spacing=100_000, ka=30_000_000, join=2_
     out = [f"params {spacing} {ka} {join} {read} {log_size} {','.join(hidden) if hidden else '-'}"]
     idx = []          # trace seq per emitted event line (for reporting)
     calls = {}
+    rets = {e["call"]: e for e in trace if e["k"] == "ret"}
+    opened = any(e["k"] == "thread_exit" and e["th"].startswith("R") for e in trace) or any(e["th"].startswith("R") for e in trace)
     for e in trace:
         k = e["k"]
         t = e["t"]
@@ -29,7 +31,7 @@ def render(trace, log_size=0, hidden=(), spacing=100_000, ka=30_000_000, join=2_
             calls[e["seq"]] = e
             tid = tid_of(e["th"])
             if op[0] == "connect":
-                line = "in startR"
+                line = "in startR" if opened else None      # the port could not be opened: no reader thread is ever started
             elif op[0] in ("put", "get", "raw"):
                 from .monitors import text_of
                 line = f"in call {tid} {core.hx(text_of(op))}"
